@@ -28,6 +28,27 @@ func funcKey(fn *ssa.Function) string {
 	if fn.Pkg == nil {
 		// synthetic / instantiation: try origin
 		if o := fn.Origin(); o != nil && o.Pkg != nil {
+			if len(fn.TypeArgs()) > 0 {
+				// canonical name of an instantiation: the generic's name with its type parameter list
+				// replaced by the alias-free type arguments (the SSA builder names an instance after
+				// whichever spelling of the type arguments it met first)
+				var as []string
+				for _, t := range fn.TypeArgs() {
+					as = append(as, typeKey(t))
+				}
+				args := "[" + strings.Join(as, ",") + "]"
+				base := o.RelString(o.Pkg.Pkg)
+				if i := strings.Index(base, "["); i >= 0 {
+					if j := strings.Index(base[i:], "]"); j >= 0 {
+						return o.Pkg.Pkg.Path() + "." + base[:i] + args + base[i+j+1:]
+					}
+				}
+				// a generic function: name, optional "$n" suffix of an anonymous function inside it
+				if k := strings.Index(base, "$"); k >= 0 {
+					return o.Pkg.Pkg.Path() + "." + base[:k] + args + base[k:]
+				}
+				return o.Pkg.Pkg.Path() + "." + base + args
+			}
 			return o.Pkg.Pkg.Path() + "." + fn.RelString(o.Pkg.Pkg)
 		}
 		return fn.String()
@@ -192,6 +213,27 @@ func (p *Program) LookupType(defPkg *types.Package, name string) types.Type {
 			return types.NewArray(t, n)
 		}
 		return nil
+	}
+	if i := strings.Index(name, "["); i > 0 && strings.HasSuffix(name, "]") {
+		// instantiation of a generic type: Name[Arg, ...]
+		base := p.LookupType(defPkg, name[:i])
+		named, ok := base.(*types.Named)
+		if !ok || named.TypeParams().Len() == 0 {
+			return nil
+		}
+		var targs []types.Type
+		for _, a := range splitTop(name[i+1:len(name)-1], ',') {
+			t := p.LookupType(defPkg, strings.TrimSpace(a))
+			if t == nil {
+				return nil
+			}
+			targs = append(targs, t)
+		}
+		inst, err := types.Instantiate(nil, named, targs, false)
+		if err != nil {
+			return nil
+		}
+		return inst
 	}
 	if i := strings.LastIndex(name, "."); i >= 0 {
 		pn, tn := name[:i], name[i+1:]
